@@ -595,6 +595,17 @@ Proof.
     rewrite F1. apply get_session_In in Hx. destruct Hx as (_ & _ & _ & Hx & _). exact Hx.
 Qed.
 
+(* before C_Initialize nothing but a restart changes the state, so the initialisation hypothesis can go *)
+Lemma step_uninit (s : state) (o : op) : st_init s = false -> is_restart o = false -> fst (step s o) = s.
+Proof. intros Hi Hr. destruct o; try discriminate Hr; unfold step; rewrite Hi; reflexivity. Qed.
+
+Corollary isolation_any (s : state) (o : op) (j k : N) :
+  inv_tok s -> addresses s o j -> j <> k -> tok_view (fst (step s o)) k = tok_view s k.
+Proof.
+  intros Hinv Ha Hne. destruct (st_init s) eqn:Hi; [eapply isolation; eauto|].
+  rewrite step_uninit; [reflexivity|exact Hi|]. destruct o; cbn in Ha; try contradiction; reflexivity.
+Qed.
+
 (* the invariant is a real hypothesis: in an (unreachable) state whose session handle entry carries
    another token than the session, closing the session removes a handle of that other token *)
 Lemma isolation_needs_inv_refuted :
@@ -621,36 +632,22 @@ Fixpoint addresses_other (s : state) (ops : list op) (k : N) : Prop :=
   | o :: r => (exists j, addresses s o j /\ j <> k) /\ addresses_other (fst (step s o)) r k
   end.
 
-Lemma step_keeps_init s o : is_restart o = false -> st_init (fst (step s o)) = st_init s.
-Proof.
-  intros Hr. destruct o; try discriminate Hr; unfold step; cbn [fst];
-  repeat (first [break_match | break_let]; cbn [fst]); try reflexivity.
-  all: try match goal with H : add_handle _ _ = (_, _) |- _ => unfold add_handle in H; inversion H; subst; clear H end.
-  all: try match goal with H : add_obj_handle ?a ?b ?c ?d ?e = (?s1, _) |- _ =>
-         assert (E1 : s1 = fst (add_obj_handle a b c d e)) by (rewrite H; reflexivity); clear H; subst s1 end.
-  all: try (match goal with H : find_loop _ _ _ _ _ _ _ _ = Some _ |- _ => apply find_loop_frame in H; destruct H as (F1 & F2 & F3 & F4) end).
-  all: unfold close_all, purge_handles, add_obj_handle, add_handle, put_object, del_object, upd_session;
-       repeat (first [break_match | break_let]; cbn [fst]); simp_state; rewrite ?upd_token_init; simp_state;
-       rewrite ?upd_token_init; try reflexivity; try assumption.
-Qed.
-
 Lemma addresses_not_restart s o j : addresses s o j -> is_restart o = false.
 Proof. destruct o; cbn; intros H; try contradiction; reflexivity. Qed.
 
 Theorem isolation_trace (ops : list op) : forall (s : state) (k : N),
-  inv_tok s -> st_init s = true -> addresses_other s ops k -> tok_view (exec s ops) k = tok_view s k.
+  inv_tok s -> addresses_other s ops k -> tok_view (exec s ops) k = tok_view s k.
 Proof.
-  unfold exec. induction ops as [|o r IH]; intros s k Hinv Hi Ha; cbn [fold_left]; [reflexivity|].
+  unfold exec. induction ops as [|o r IH]; intros s k Hinv Ha; cbn [fold_left]; [reflexivity|].
   destruct Ha as [[j [Ha Hne]] Hr]. rewrite IH.
-  - eapply isolation; eauto.
+  - eapply isolation_any; eauto.
   - apply step_inv_tok. exact Hinv.
-  - rewrite step_keeps_init; [exact Hi|]. eapply addresses_not_restart. exact Ha.
   - exact Hr.
 Qed.
 
 Corollary isolation_trace_reachable (ops0 ops : list op) (k : N) :
   let s := exec init_state ops0 in
-  st_init s = true -> addresses_other s ops k -> tok_view (exec s ops) k = tok_view s k.
+  addresses_other s ops k -> tok_view (exec s ops) k = tok_view s k.
 Proof. intros s. apply isolation_trace. apply inv_tok_reachable. Qed.
 
 (* ---- C_InitToken on the free slot: exactly one fresh token is appended -------------------------- *)
